@@ -549,6 +549,27 @@ contract(
 )
 
 _HASN = "any(b.name == anchor_name for b in glyphSet.glyphs[{c}.baseGlyph].anchors)"
+
+
+class _ProbeKey(Val):
+    """an ARBITRARY dict key / anchor name (free constant; see _ProbeName further down, which is this class under its documented name)"""
+
+    _NATIVE = "top"
+
+    def __call__(self):
+        return self
+
+    def __hash__(self):
+        return hash(self._NATIVE)
+
+    def __eq__(self, o):
+        return o == self._NATIVE if isinstance(o, str) else NotImplemented
+
+    def __radd__(self, o):
+        return o + self._NATIVE
+
+
+_PROBE_EARLY = _ProbeKey(STR, z3.String("c15_probe_name"))
 # (b) ANY number of base components.  The numbered ligature anchors (name_1, name_2, ... when several bases carry the anchor) need
 #     facts about every earlier entry of `anchors` across two loops; the two-component decision table was tried and left three
 #     obligations at solver timeouts, so this case is: memory-safety proved for all inputs + the exact result BOUNDED (run-time
@@ -581,8 +602,12 @@ contract(
     params={"anchor_data": _AD, "glyphSet": Ref("C15_GlyphSet"), "components": List(Ref("C15_AComponent")), "anchor_name": STR},
     modifies=["anchor_data"],
     requires=["all(c.baseGlyph in glyphSet.glyphs for c in components)"],
-    globals={"expected_anchor_data": _expected_anchor_data},
+    globals={"expected_anchor_data": _expected_anchor_data, "probe": _PROBE_EARLY},
     ensures={
+        # WHERE the values come from (for the arbitrary key `probe`, see _ProbeName): an entry is either untouched or the image of an anchor
+        # named anchor_name of some component's base glyph under THAT component's full affine map (dot2(a, b, c, d) = a*b + c*d)
+        "value-is-a-carried-image": "implies(probe in anchor_data, (probe in old(anchor_data) and anchor_data[probe] == old(anchor_data)[probe]) or "
+        "any(any(b.name == anchor_name and anchor_data[probe] == " + _carried_d("components[a]", "b") + " for b in glyphSet.glyphs[components[a].baseGlyph].anchors) for a in range(len(components))))",
         # no name is dropped, and every NEW name is anchor_name itself or an extension of it (anchor_name + "_" + number)
         "keeps-existing-names": "all(k in anchor_data for k in old(anchor_data))",
         "new-names-extend-the-anchor-name": "all(k in old(anchor_data) or k.startswith(anchor_name) for k in anchor_data)",
@@ -592,13 +617,32 @@ contract(
     bounded_ensures={"exact-result": "dict(anchor_data) == expected_anchor_data(old(dict(anchor_data)), glyphSet, components, anchor_name)"},
     canaries={"never-adds": "all(k in old(anchor_data) for k in anchor_data)"},
     locals={"anchors": List(Tuple(Ref("C15_Anchor"), Ref("C15_AComponent")))},
-    ghost_vars={"AD0": (_AD, "anchor_data")},
+    # CA / CB: for every entry of `anchors`, the position of its component in `components` and of its anchor in that base glyph's anchor list;
+    # wa / wb: the same two positions for the entry that wrote the key `probe` last (-1: nobody did)  — ghost witnesses
+    ghost_vars={"AD0": (_AD, "anchor_data"), "CA": (List(INT), "[]"), "CB": (List(INT), "[]"), "wa": (INT, "-1"), "wb": (INT, "-1")},
+    ghost={"anchors.append((anchor, component))": ["CA = CA + [ci]", "CB = CB + [ai]"],
+           "anchor_data[name] = t.transformPoint((anchor.x, anchor.y))": ["wa = CA[ei] if name == probe else wa", "wb = CB[ei] if name == probe else wb"],
+           "anchor_data[anchor.name] = t.transformPoint((anchor.x, anchor.y))": ["wa = CA[0] if anchor.name == probe else wa", "wb = CB[0] if anchor.name == probe else wb"]},
+    hints={
+        "anchor_data[name] = t.transformPoint((anchor.x, anchor.y))": [
+            "anchor_data[name] == " + _carried("component", "anchor"),  # the arithmetic: transformPoint = full affine map
+            "anchor_data[name] == " + _carried_d("component", "anchor"),  # ... and the same through the symbol dot2
+        ],
+        "anchor_data[anchor.name] = t.transformPoint((anchor.x, anchor.y))": [
+            "anchor_data[anchor.name] == " + _carried("component", "anchor"),
+            "anchor_data[anchor.name] == " + _carried_d("component", "anchor"),
+        ],
+    },
     merge_branches=False,  # several / one / no base anchor of that name: three separate paths
     loops={
         "for component in components": Loop(index="ci", invariants={
+            "index-lists": "len(CA) == len(anchors) and len(CB) == len(anchors)",
+            "sources": "all(0 <= CA[k] and CA[k] < len(components) and components[CA[k]] == anchors[k][1] and 0 <= CB[k] and CB[k] < len(glyphSet.glyphs[components[CA[k]].baseGlyph].anchors) and glyphSet.glyphs[components[CA[k]].baseGlyph].anchors[CB[k]] == anchors[k][0] for k in range(len(anchors)))",
             "found-have-the-name": "all(anchors[k][0].name == anchor_name for k in range(len(anchors)))",
             "found-when-present": f"implies(any({_HASN.format(c='components[a]')} for a in range(ci)), len(anchors) >= 1)"}),
         "for anchor in glyphSet[component.baseGlyph].anchors": Loop(index="ai", invariants={
+            "index-lists": "len(CA) == len(anchors) and len(CB) == len(anchors)",
+            "sources": "all(0 <= CA[k] and CA[k] < len(components) and components[CA[k]] == anchors[k][1] and 0 <= CB[k] and CB[k] < len(glyphSet.glyphs[components[CA[k]].baseGlyph].anchors) and glyphSet.glyphs[components[CA[k]].baseGlyph].anchors[CB[k]] == anchors[k][0] for k in range(len(anchors)))",
             "found-have-the-name": "all(anchors[k][0].name == anchor_name for k in range(len(anchors)))",
             "not-yet": "all(glyphSet.glyphs[component.baseGlyph].anchors[q].name != anchor_name for q in range(ai))",
             "found-when-present": f"implies(any({_HASN.format(c='components[a]')} for a in range(ci)), len(anchors) >= 1)"}),
@@ -608,6 +652,11 @@ contract(
                 "kept": "all(k in anchor_data for k in AD0)",
                 "new-extend": "all(k in AD0 or k.startswith(anchor_name) for k in anchor_data)",
                 "first-added": "implies(ei > 0, (anchor_name + '_1') in anchor_data)",
+                "witness-range": "-1 <= wa",
+                "witness-positions": "implies(wa >= 0, probe in anchor_data and wa < len(components) and 0 <= wb and wb < len(glyphSet.glyphs[components[wa].baseGlyph].anchors))",
+                "witness-name": "implies(wa >= 0, glyphSet.glyphs[components[wa].baseGlyph].anchors[wb].name == anchor_name)",
+                "witness-value": "implies(wa >= 0, probe in anchor_data and anchor_data[probe] == " + _carried_d("components[wa]", "glyphSet.glyphs[components[wa].baseGlyph].anchors[wb]") + ")",
+                "untouched": "implies(wa < 0, (probe in anchor_data) == (probe in AD0) and implies(probe in anchor_data, anchor_data[probe] == AD0[probe]))",
             },
         ),
     },
@@ -1007,12 +1056,21 @@ def _sorted_items(ex, st, args, kwargs, node):
     st.assume(z3.ForAll([x], z3.Contains(ks, z3.Unit(x)) == z3.Select(s.dom(d), x)))
     st.assume(z3.ForAll([i], z3.Implies(z3.And(0 <= i, i < z3.Length(ks)), z3.Select(s.dom(d), ks[i]))))
     st.assume((z3.Length(ks) == 0) == (s.dom(d) == z3.K(t.k.sort(), z3.BoolVal(False))))  # no pairs iff the dict is empty
-    # every key of the dict sits at some position of the list (Skolem function; triggered by `key in dict` terms only)
-    pos = z3.Function(fresh_name("sorted_pos"), t.k.sort(), z3.IntSort())
-    st.assume(z3.ForAll([x], z3.Implies(z3.Select(s.dom(d), x), z3.And(0 <= pos(x), pos(x) < z3.Length(ks), ks[pos(x)] == x)), patterns=[z3.Select(s.dom(d), x)]))
     item = lambda j: Val(PYOBJ, None, (Val(t.k, ks[j]), Val(t.v, z3.Select(s.map(d), ks[j]))), True)  # noqa: E731
     out = IterInfo("indexed", n=z3.Length(ks), item=item, seqval=Val(List(t.k), ks))
     return Val(PYOBJ, None, ("iterinfo", out, None), True)
+
+
+def _second_run_adds_nothing(glyphSet, composite, categories):
+    """run-time clause (bounded): a second application to the (real) result, with fresh `processed` / `modified`, appends nothing anywhere"""
+    from pyvc.rt import unwrap
+    from ufo2ft.filters.propagateAnchors import _propagate_glyph_anchors
+
+    gs = unwrap(glyphSet)
+    before = {n: [a.name for a in g.anchors] for n, g in gs.items()}
+    modified = set()
+    _propagate_glyph_anchors(gs, unwrap(composite), set(), modified, unwrap(categories))
+    return not modified and before == {n: [a.name for a in g.anchors] for n, g in gs.items()}
 
 
 _PGA = "ufo2ft.filters.propagateAnchors:_propagate_glyph_anchors"
@@ -1026,7 +1084,7 @@ contract(
     _PGA,
     props=["C15"],
     params={"glyphSet": Ref("C15_GlyphSet"), "composite": Ref("C15_Glyph"), "processed": Set(STR), "modified": Set(STR), "categories": Ref("C15_Categories")},
-    globals={"probe": _PROBE},
+    globals={"probe": _PROBE, "second_run_adds_nothing": _second_run_adds_nothing},
     calls={"ufo2ft.filters.propagateAnchors:_get_anchor_data": "ufo2ft.filters.propagateAnchors:_get_anchor_data#any-components"},
     models={"builtins.sorted": _sorted_items},
     dict_key_positions=False,
@@ -1054,20 +1112,16 @@ contract(
     # NEVER OVERRIDES for every name at once, natively on real glyph objects
     bounded_ensures={
         "never-overrides-any-name": f"all(composite.anchors[k].name not in [a.name for a in old(composite.anchors)] for k in range({_NA0}, len(composite.anchors)))",
+        # TWO-RUN IDEMPOTENCE, natively: running the function again on the result with a fresh `processed` appends no anchor to any glyph
+        # (for a first run that started with an empty `processed`: a pre-filled set makes the first run skip glyphs the second one visits)
+        "second-run-adds-nothing": "implies(len(old(processed)) == 0, second_run_adds_nothing(glyphSet, composite, categories))",
     },
     canaries={"never-adds": "len(composite.anchors) == len(old(composite.anchors))"},
     locals={"base_components": List(Ref("C15_AComponent")), "mark_components": List(Ref("C15_AComponent")), "anchor_names": Set(STR), "to_add": _AD, "glyph": Ref("C15_Glyph")},
-    ghost_vars={"A0": (List(Ref("C15_Anchor")), "composite.anchors"), "AP": (List(Ref("C15_Anchor")), "[]"), "ANF": (Set(STR), "set()"), "hit": (BOOL, "False")},
-    ghost={"anchor_dict = {'name': name, 'x': x, 'y': y}": ["AP = composite.anchors"],  # AP: the anchor list just before the next append (snapshot)
-           "if mark_components and (not base_components) and _is_ligature_mark(composite):": ["ANF = anchor_names"],  # the collected names, final
-           "composite.appendAnchor(anchor_dict)": ["hit = hit or name.startswith(probe)"]},  # hit: an appended anchor's name starts with `probe`
-    alias_ok=("AP", "A0", "ANF"),
+    ghost_vars={"A0": (List(Ref("C15_Anchor")), "composite.anchors"), "AP": (List(Ref("C15_Anchor")), "[]")},
+    ghost={"anchor_dict = {'name': name, 'x': x, 'y': y}": ["AP = composite.anchors"]},  # AP: the anchor list just before the next append (snapshot)
+    alias_ok=("AP", "A0"),
     hints={
-        # SATURATED — an internal assertion at the end of the function (ghost vocabulary cannot appear in a postcondition), proved for all
-        # inputs, for the arbitrary name `probe`; ANF = the anchor names collected from the base components: afterwards the composite has,
-        # for every collected name, an anchor whose name STARTS WITH it (it had one, or one was appended: `name`, or `name_1`, `name_2`, ..).
-        # The code's guard (`startswith`) therefore blocks every collected name from then on: nothing is left to add for this glyph.
-        "if to_add:": ["implies(probe in ANF, any(a.name.startswith(probe) for a in composite.anchors))"],
         # one append, step by step: the list grows by one NEW anchor carrying `name`; everything before it stays; so do the earlier new names
         "composite.appendAnchor(anchor_dict)": [
             "len(composite.anchors) == len(AP) + 1 and composite.anchors[len(AP)].name == name",
@@ -1078,8 +1132,7 @@ contract(
         ],
         "mark_components.remove(component)": [_PRESENT.format(l="mark_components")],
         # after the promotion of a mark to a base (or without it): every component in either list still has its base in the glyph set
-        "if mark_components and (not base_components) and _is_ligature_mark(composite):": [_PRESENT.format(l="mark_components"), _PRESENT.format(l="base_components"),
-                                                                                            "implies(probe in anchor_names, any(any(b.name == probe for b in glyphSet.glyphs[c.baseGlyph].anchors) for c in base_components))"],
+        "if mark_components and (not base_components) and _is_ligature_mark(composite):": [_PRESENT.format(l="mark_components"), _PRESENT.format(l="base_components")],
     },
     loops={
         "for component in composite.components": Loop(
@@ -1091,16 +1144,10 @@ contract(
                 "own-anchors": "composite.anchors == A0",
                 "bases-present": _PRESENT.format(l="base_components"),
                 "marks-present": _PRESENT.format(l="mark_components"),
-                # every collected name comes from an anchor of some base component's glyph; those glyphs are processed (so: not touched again)
-                "names-have-a-source": "implies(probe in anchor_names, any(any(b.name == probe for b in glyphSet.glyphs[c.baseGlyph].anchors) for c in base_components))",
-                "bases-processed": "all(c.baseGlyph in processed for c in base_components) and all(c.baseGlyph in processed for c in mark_components)",
             },
         ),
-        "for anchor_name in anchor_names": Loop(done="AN", invariants={
-            "no-override": _NO_OVERRIDE,
-            "saturating": "implies(probe in AN, any(a.name.startswith(probe) for a in A0) or any(k.startswith(probe) for k in to_add))"}),
-        "for component in mark_components": Loop(index="mi", seq="MCS", invariants={"no-override": _NO_OVERRIDE,
-            "saturating": "implies(probe in ANF, any(a.name.startswith(probe) for a in A0) or any(k.startswith(probe) for k in to_add))", "marks-present": "all(MCS[k].baseGlyph in glyphSet.glyphs for k in range(len(MCS)))"}),
+        "for anchor_name in anchor_names": Loop(done="AN", invariants={"no-override": _NO_OVERRIDE}),
+        "for component in mark_components": Loop(index="mi", seq="MCS", invariants={"no-override": _NO_OVERRIDE, "marks-present": "all(MCS[k].baseGlyph in glyphSet.glyphs for k in range(len(MCS)))"}),
         "for (name, (x, y)) in sorted(to_add.items())": Loop(
             index="si", seq="KS",
             invariants={
@@ -1109,8 +1156,6 @@ contract(
                 "new-names-are-keys": "all(composite.anchors[k].name in to_add for k in range(len(A0), len(composite.anchors)))",
                 "no-override": _NO_OVERRIDE,
                 "untouched": _UNTOUCHED,
-                "hit-means-appended": "implies(hit, any(composite.anchors[k].name.startswith(probe) for k in range(len(A0), len(composite.anchors))))",
-                "no-hit-so-far": "implies(not hit, all(not KS[m].startswith(probe) for m in range(si)))",
             },
         ),
     },
